@@ -69,6 +69,10 @@ claim("C16", "edge-cut guard of every bookkeeping effect by the accepted edges o
       "Decides C16.1 (5 push functions: in-sync flags set / entries dropped only below success or ACL-refusal edges, other errors returned), C16.2 (local removal marks Deleted and keeps the entry; every Deleted entry is pushed at every sync), C16.3 (the diff only clears flags or takes them from IsSame), C16.4 (push functions run under the state lock), C16.5 (a failed full sync goes to the retry state). Convergence over fault sequences is not decided.",
       "DESIGN.md section 3 C16")
 
+claim("C19", "value provenance of every append into the deletions / upserts lists of the diff functions; loop-structure rule for the two tails; cursor-discipline edge-cut rule on the sorted merge walks; edge-cut guard of the apply steps by non-empty differences; path-sensitive nil-flow from each apply step's error to the returned index",
+      "Decides C19.1 (4 diff functions: deletions come from the local input, upserts from the remote), C19.3 (3 merge walks drain both tails), C19.6 (a cursor only advances past a matched, scheduled or own-empty element — the seeded misalignment class), C19.4 (6 apply steps only below a non-empty difference), C19.5 (a failed apply step never lets the remote index advance). Sort key = merge key (C19.2) is not built; equality of the resulting sets for all inputs is not decided.",
+      "DESIGN.md section 3 C19")
+
 NA_REASON = {}
 
 checks = []
